@@ -1,4 +1,5 @@
 import UvModel.LoopRun
+import UvModel.Lemmas.LoopRing
 /-!
   No API operation emits a trace event or runs a callback: `tr (applyOp s o).1 = tr s`
   (trace and callback counter).  Events are produced only by `emit` (callbacks, polls, `stepOp`).
@@ -52,8 +53,20 @@ def tr (s : State) : List Event × Nat := (s.trace, s.ncbTotal)
 @[simp] theorem tr_initInotify (s : State) : tr (initInotify s) = tr s := by
   unfold initInotify; split; · rfl
   simp; rfl
-@[simp] theorem tr_workSubmit (s : State) : tr (workSubmit s) = tr s := by
-  unfold workSubmit; simp only; split <;> rfl
+@[simp] theorem tr_workSubmit (s : State) (api : Api) : tr (workSubmit s api) = tr s := by
+  unfold workSubmit; simp only; split
+  · split
+    · rfl
+    · rw [tr_asyncSend]; rfl
+  · rfl
+@[simp] theorem tr_ringInit (s : State) : tr (ringInit s) = tr s := by
+  unfold ringInit; split <;> rfl
+@[simp] theorem tr_submit (s : State) (api : Api) : tr (submit s api) = tr s := by
+  unfold submit; simp only; split
+  · split
+    · unfold ringSubmit; simp only; exact tr_ringInit s
+    · rw [tr_workSubmit, tr_ringInit]
+  · rw [tr_workSubmit]
 @[simp] theorem tr_workCancel (s : State) (r : Nat) : tr (workCancel s r).1 = tr s := by
   unfold workCancel; split
   · simp; rfl
